@@ -26,8 +26,22 @@ Unions2(S) == {UnionT(p) : p \in DPairs(S)}
 Unions3(S) == {UnionT(p) : p \in DTriples(S)}
 Conts(S)   == {ListT(e) : e \in S} \cup {SetT(e) : e \in S} \cup {TupleET(e) : e \in S}
 
-TopLeaves  == {StrT, IntT, FloatT, BoolT, AnyT, EnE, Lit1, Lit2, PathT}
-AllLeaves  == (TopLeaves \ {PathT}) \cup {NoneT, EnF, Lit3}
+\* user-defined restricted types and the built-in registered types (all of RStrDefs / RNumDefs / RegDefs)
+RStrs == {RStrT(n) : n \in DOMAIN RStrDefs}
+RNums == {RNumT(n) : n \in DOMAIN RNumDefs}
+Regs  == {RegT(n) : n \in RegNames}
+Sku   == RStrT("sku_u")
+Out01 == RNumT("out01i")
+TdT   == RegT("timedelta")
+RngT  == RegT("range")
+BasicLeaves == {StrT, IntT, FloatT, BoolT, AnyT, EnE, Lit1, Lit2}
+TopLeaves  == BasicLeaves \cup {PathT} \cup RStrs \cup RNums \cup Regs
+AllLeaves  == BasicLeaves \cup {NoneT, EnF, Lit3}
+\* ... inside List / Dict / Tuple / Optional / Union[Restricted, int]
+RestrictedInside ==
+       {ListT(Sku), DictT(StrT, Sku), TupleT(<<Sku, IntT>>), ListT(RStrT("pre")), ListT(Out01), ListT(TdT), ListT(RngT), DictT(StrT, TdT)}
+  \cup Unions2({Sku, NoneT}) \cup Unions2({Sku, IntT}) \cup Unions2({Out01, NoneT}) \cup Unions2({Out01, StrT})
+  \cup Unions2({TdT, NoneT}) \cup Unions2({RngT, NoneT}) \cup Unions2({RNumT("gthf"), IntT})
 Core       == {StrT, IntT, BoolT, NoneT}
 \* several Tuple / Set members in one Union: an earlier member must not leave its conversions behind for the next one
 TupF == TupleT(<<FloatT, FloatT>>)
@@ -83,8 +97,10 @@ TupUnions == Unions2({TupF, TupIS, TupleT(<<IntT, IntT>>), TupleT(<<StrT, StrT>>
 C10QuickDrop == (TupUnions \ {UnionT(<<TupF, TupIS>>), UnionT(<<SetT(IntT), TupIS>>)})
                 \cup Unions2({FloatT, BoolT, Lit1, IntT, NoneT}) \cup Conts({NoneT, Lit3, BoolT}) \cup {TupleT(p) : p \in Pairs({IntT, BoolT})}
                 \cup {TupleT(<<u, IntT>>) : u \in Unions2({StrT, IntT, NoneT})} \cup {SetT(u) : u \in Unions2({StrT, IntT, BoolT})}
-TypeSet == IF Tier = "quick" THEN (TopLeaves \cup D1Quick \cup D2Quick) \ (IF Laws = "c10" THEN C10QuickDrop ELSE {})
-           ELSE TopLeaves \cup D1Thorough \cup D2Thorough \cup D3Thorough \cup D4Thorough
+TypeSet == IF Tier = "quick" THEN (TopLeaves \cup D1Quick \cup D2Quick \cup RestrictedInside) \ (IF Laws = "c10" THEN C10QuickDrop ELSE {})
+           ELSE TopLeaves \cup D1Thorough \cup D2Thorough \cup D3Thorough \cup D4Thorough \cup RestrictedInside
+                \cup {ListT(r) : r \in RStrs \cup RNums \cup Regs} \cup UNION {Unions2({r, NoneT}) : r \in RStrs \cup RNums \cup Regs}
+                \cup UNION {Unions2({r, IntT}) : r \in RStrs \cup RNums} \cup {DictT(StrT, r) : r \in Regs}
 
 \* arguments with a default: canonical ones and valid but non-canonical ones (int for float, tuple for List, list for
 \* Tuple / Set, str keys for Dict[int, .], a member name for an Enum, a file name for a path)
@@ -92,10 +108,13 @@ L12 == <<IntV(1), IntV(2)>>
 DefaultsQuick ==
   { <<BoolT, BoolV(FALSE)>>, <<IntT, IntV(1)>>, <<IntT, IntV(2)>>, <<FloatT, FloatV(1, 1)>>, <<FloatT, IntV(1)>>, <<StrT, StrV("abc")>>,
     <<UnionT(<<IntT, StrT>>), IntV(1)>>, <<UnionT(<<FloatT, NoneT>>), IntV(1)>>, <<Lit1, IntV(1)>>, <<EnE, StrV("A")>>, <<PathT, StrV("file.txt")>>,
+    <<TdT, RegV("timedelta", TdD1)>>, <<RngT, RegV("range", "0,10,2")>>, <<RNumT("gt1i"), IntV(2)>>, <<Sku, StrV("ABC-1234")>>, <<ListT(TdT), ListV(<<StrV("25:00:00")>>)>>,
     <<ListT(IntT), TupleV(L12)>>, <<TupleT(<<IntT, IntT>>), ListV(L12)>>, <<SetT(IntT), ListV(<<IntV(1)>>)>>, <<DictT(IntT, StrT), D1(StrV("1"), StrV("a"))>> }
 DefaultsThorough == DefaultsQuick \cup
   { <<BoolT, BoolV(TRUE)>>, <<IntT, IntV(0)>>, <<FloatT, FloatV(3, 2)>>, <<FloatT, IntV(2)>>, <<StrT, StrV("1")>>, <<StrT, StrV("null")>>,
     <<UnionT(<<StrT, IntT>>), IntV(1)>>, <<UnionT(<<IntT, FloatT>>), IntV(1)>>, <<UnionT(<<FloatT, IntT>>), IntV(1)>>, <<UnionT(<<NoneT, IntT>>), IntV(2)>>,
+    <<RegT("decimal"), RegV("decimal", "1/2")>>, <<RegT("complex"), RegV("complex", "1/1,2/1")>>, <<RegT("uuid"), RegV("uuid", UU)>>, <<RegT("bytes"), RegV("bytes", "6162")>>,
+    <<UnionT(<<TdT, NoneT>>), StrV("1 day, 1:00:00")>>, <<RNumT("in02f"), IntV(1)>>,
     <<Lit3, IntV(2)>>, <<EnE, EnumV("E", "B")>>, <<ListT(FloatT), ListV(L12)>>, <<ListT(IntT), ListV(<<StrV("1")>>)>>, <<TupleET(IntT), ListV(L12)>>,
     <<DictT(StrT, FloatT), D1(StrV("a"), IntV(1))>>, <<ListT(UnionT(<<IntT, StrT>>)), TupleV(<<IntV(1), StrV("a")>>)>>, <<AnyT, StrV("1")>> }
 DefaultPairs == IF Tier = "quick" THEN DefaultsQuick ELSE DefaultsThorough
@@ -108,7 +127,17 @@ CoreTexts == {"null", "~", "true", "yes", "1", " 1 ", "0x10", "1.5", "1e3", "\"1
 ScalarsNoText == {NoneV, BoolV(TRUE), BoolV(FALSE), IntV(0), IntV(1), IntV(2), FloatV(3, 2), FloatV(1, 1), FloatV(2, 1),
                   EnumV("E", "A"), EnumV("E", "B"), EnumV("F", "C"), PathV("file.txt")}
 Scalars == ScalarsNoText \cup {StrV(s) : s \in Texts}
-TopScalars(t) == IF Tier = "quick" /\ t \notin TopLeaves THEN ScalarsNoText \cup {StrV(s) : s \in CoreTexts} ELSE Scalars
+RStrTexts == {"ABC-1234", "xABC-1234", "sku ABC-1234", "ABC-12345", "ab", "xab", "abc"}       \* matches, and matches that do not start at position 0
+RECURSIVE TypeTexts(_)
+TypeTexts(ty) == CASE ty.k = "rstr" -> RStrTexts
+                   [] ty.k = "reg" -> DOMAIN RegDefs[DefName(ty)].txt \cup RegDefs[DefName(ty)].bad
+                   [] ty.k \in {"list", "set", "tupleE", "tuple", "dict", "union"} -> UNION {TypeTexts(ty.v[i]) : i \in 1..Len(ty.v)}
+                   [] OTHER -> {}
+\* (a registered type sees its own spellings, the texts it must refuse and the non-text scalars: what base64 / Decimal /
+\* complex make of an arbitrary text is not tabulated)
+TopScalars(ty) == {StrV(s) : s \in TypeTexts(ty)} \cup
+                  (IF ty.k = "reg" THEN ScalarsNoText \cup {StrV("null"), StrV("[1]")}
+                   ELSE IF Tier = "quick" /\ ty \notin TopLeaves THEN ScalarsNoText \cup {StrV(s) : s \in CoreTexts} ELSE Scalars)
 Wrong   == {ListV(<< >>), ListV(<<IntV(1)>>), TupleV(<<IntV(1), StrV("a")>>), SetV({IntV(1)}), DictV(<< >>), D1(StrV("a"), IntV(1))}
 
 SeqsUpTo2(S) == {<< >>} \cup {<<a>> : a \in S} \cup {<<a, b>> : a \in S, b \in S}
@@ -117,6 +146,9 @@ RECURSIVE ElemPool(_)
 ElemPool(t) ==
   CASE t.k \in LeafKinds \cup {"any", "literal", "enum", "path"} ->
          {IntV(1), BoolV(TRUE), NoneV, FloatV(3, 2), StrV("1"), StrV("abc"), StrV("null"), StrV("A"), StrV("a"), EnumV("E", "A")}
+    [] t.k = "rstr" -> {StrV("ABC-1234"), StrV("xABC-1234"), StrV("sku ABC-1234"), StrV("ab"), StrV("xab"), StrV("abc"), IntV(1), NoneV}
+    [] t.k = "rnum" -> {IntV(-1), IntV(0), IntV(1), IntV(2), StrV("2"), StrV("1.0"), FloatV(3, 2), FloatV(2, 1), BoolV(TRUE), StrV("abc"), NoneV}
+    [] t.k = "reg"  -> RegValues(DefName(t)) \cup {StrV(s) : s \in DOMAIN RegDefs[DefName(t)].txt} \cup {StrV("abc"), IntV(1), NoneV}
     [] t.k = "union" -> UNION {ElemPool(t.v[i]) : i \in 1..Len(t.v)}
     [] t.k \in {"list", "set", "tupleE"} ->
          IF Len(t.v) = 0 THEN {ListV(<< >>), ListV(<<IntV(1), StrV("a")>>), IntV(1)}
@@ -130,7 +162,8 @@ TupPool(t) == IF Tier = "quick" THEN ElemPool(t) \cap ({IntV(1), StrV("1"), StrV
 TuplePick == {IntV(1), StrV("1"), StrV("a")}       \* first members of the candidates that are given as TUPLES / with a wrong arity
 RECURSIVE Structs(_)
 Structs(t) ==
-  CASE t.k \in LeafKinds \cup {"any", "literal", "enum", "path"} -> {}
+  CASE t.k \in LeafKinds \cup {"any", "literal", "enum", "path", "rstr", "rnum"} -> {}
+    [] t.k = "reg" -> RegValues(DefName(t))                                   \* the values themselves (parse_object, defaults)
     [] t.k = "union" -> UNION {Structs(t.v[i]) : i \in 1..Len(t.v)}
     [] t.k \in {"list", "set", "tupleE"} ->
          LET P == IF Len(t.v) = 0 THEN {IntV(1), StrV("a"), NoneV} ELSE ElemPool(t.v[1])
@@ -150,7 +183,7 @@ Structs(t) ==
 Cands(t) == TopScalars(t) \cup Wrong \cup Structs(t)
 \* with a default: every scalar (of every kind: some are ==-equal to the default), the wrong containers, and nothing at all
 AbsentV == [k |-> "absent", v |-> 0]
-DefaultCands(t) == Scalars \cup Wrong \cup Structs(t) \cup {AbsentV}
+DefaultCands(ty) == (IF TypeTexts(ty) # {} THEN TopScalars(ty) ELSE Scalars) \cup Wrong \cup Structs(ty) \cup {AbsentV}
 
 \* ------------------------------------------------------------------ the state space: one state per case
 VARIABLES t, d, x, ph
@@ -167,6 +200,12 @@ Jsonable(y) == CASE y.k = "bag" -> [k |-> "bag", v |-> [n \in 1..Len(AsSeq(y)) |
                  [] y.k = "set" -> [k |-> "set", v |-> {Jsonable(e) : e \in y.v}]
                  [] y.k = "dict" -> [k |-> "dict", v |-> [n \in 1..Len(y.v) |-> <<y.v[n][1], Jsonable(y.v[n][2])>>]]
                  [] OTHER -> y
+FnPairs(f) == LET S == SetAsSeq(DOMAIN f) IN [i \in 1..Len(S) |-> <<S[i], f[S[i]]>>]
+\* the definitions of the restricted / registered types, for the harness (which builds the real types from them and runs every row)
+ASSUME Emit # "none" => PrintT(ToJson([typedefs |-> [rstr |-> RStrDefs, rnum |-> RNumDefs, pyint |-> PyIntTbl, pyfloat |-> PyFloatTbl,
+          reg |-> [n \in RegNames |-> [ser |-> FnPairs(RegDefs[n].ser), txt |-> FnPairs(RegDefs[n].txt), num |-> FnPairs(RegDefs[n].num), bad |-> RegDefs[n].bad]]]]))
+\* arguments named like a Namespace method: a sample of types, the value given as an object
+ClashTypes == {IntT, FloatT, EnE, ListT(IntT), SetT(IntT), DictT(StrT, IntT), TupleT(<<IntT, StrT>>), UnionT(<<IntT, StrT>>), Sku, TdT}
 ASSUME Emit # "none" => PrintT(ToJson([vocabulary |-> LET S == SetAsSeq(DOMAIN YamlTbl) IN [n \in 1..Len(S) |-> <<S[n], YamlTbl[S[n]]>>]]))
 
 \* One invariant, so that Ref's verdict, Ref's normal forms and Alg's result are evaluated ONCE per case; a failing law
@@ -197,7 +236,12 @@ InvCase ==
           /\ C02Laws => Named("AlgRefinesRef", Devs(a) = {} => (a.ok = acc /\ (a.ok => (a.v \in res /\ ConformsTop(t, a.v)))))
           /\ (C02Laws /\ Tier # "quick") => Named("AlgPermInvariant", AlgPermInvariantA(t, x, d, a))    \* (quick: every permutation is a state of its own)
           /\ C02Laws => Named("DevsAsDescribed", ("excLeak" \in a.dev => ~a.ok) /\ ((Devs(a) # {} /\ Devs(a) \subseteq {"litEq", "dictKey", "origNested"} /\ ~a.ok) => ~acc))
+          /\ (C02Laws /\ d = NoneV /\ t \in ClashTypes) =>
+                Named("ClashRefines", LET c == AlgParseClash(t, x, d) IN c.dev = {} => (c.ok = acc /\ (c.ok => c.v \in res)))
           /\ C10Laws => Named("Idempotent", IdempotentA(t, d, a))
           /\ C10Laws => Named("DumpStable", DumpStableA(t, d, a))
-          /\ (Emit = "all" \/ (Emit = "accepted" /\ a.ok)) => PrintT(ToJson([t |-> t, d |-> d, x |-> x, acc |-> acc, res |-> res, aok |-> a.ok, av |-> a.v, dev |-> a.dev]))
+          /\ (Emit = "all" \/ (Emit = "accepted" /\ a.ok)) => PrintT(ToJson(
+                IF d = NoneV /\ t \in ClashTypes
+                THEN LET c == AlgParseClash(t, x, d) IN [t |-> t, d |-> d, x |-> x, acc |-> acc, res |-> res, aok |-> a.ok, av |-> a.v, dev |-> a.dev, cok |-> c.ok, cv |-> c.v, cdev |-> c.dev]
+                ELSE [t |-> t, d |-> d, x |-> x, acc |-> acc, res |-> res, aok |-> a.ok, av |-> a.v, dev |-> a.dev]))
 =============================================================================
